@@ -125,12 +125,62 @@ def register(reg):
                 eng.check(f"{name}#ensures.single_candidate_only_when_the_mesh_fills_its_box", sv_and(compare("==", n, 1), compare(">", p, 0.99)))
             eng.check(f"{name}#ensures.three_coordinates_per_candidate", shape[1] == 3)
 
+    def replay(inputs, clause):
+        """The real function on real two-body meshes whose bounding-box centre lies outside the solid, with
+        numpy.random.default_rng wrapped to see which generator is used and how many candidates are drawn."""
+        import math
+
+        import numpy
+        import trimesh
+
+        import scenic.core.utils as RU
+
+        for gap in (1.0, 3.0, 8.0, 30.0):
+            a = trimesh.creation.box((1, 1, 1))
+            b = trimesh.creation.box((1, 1, 1))
+            b.apply_translation((0, 0, 1 + gap))
+            mesh = trimesh.util.concatenate([a, b])
+            p = mesh.volume / mesh.bounding_box.volume
+            want = 1 if p > 0.99 else math.ceil(min(1e6, max(1, math.log(0.01) / math.log(1 - p))))
+            seen = []
+            real = numpy.random.default_rng
+
+            def spy(*args, _real=real, **kw):
+                g = _real(*args, **kw)
+
+                class G:
+                    def random(self, size=None, *a, **k):
+                        seen.append(("private", size))
+                        return g.random(size, *a, **k)
+
+                    def __getattr__(self, n):
+                        return getattr(g, n)
+
+                return G()
+
+            numpy.random.default_rng = spy
+            state = numpy.random.get_state()[1].copy()
+            try:
+                pt = RU.findMeshInteriorPoint(mesh)
+            finally:
+                numpy.random.default_rng = real
+            if "global" in clause or "generator" in clause:
+                if not numpy.array_equal(state, numpy.random.get_state()[1]) and mesh.contains([pt])[0] and seen:
+                    return f"findMeshInteriorPoint drew from NumPy's global generator although a candidate from the private generator was inside (two unit cubes {gap} apart)"
+            if not seen:
+                return f"findMeshInteriorPoint did not draw its candidates from a private generator (two unit cubes {gap} apart)"
+            n = seen[0][1][0] if isinstance(seen[0][1], tuple) else seen[0][1]
+            if "candidate" in clause and n != want:
+                return f"two unit cubes {gap} apart (solid fraction of the bounding box p = {p:.4f}): {n} candidate points drawn, but 99% confidence of hitting the solid needs ceil(log(0.01) / log(1 - p)) = {want}"
+        return None
+
     reg.add(
         C.Contract(
             f"{U}:findMeshInteriorPoint",
             params=dict(mesh=C.Const(None), num_samples=C.Const(None)),
             setup=setup,
             post=post,
+            replay=replay,
             properties=("C15",),
         )
     )
